@@ -55,43 +55,58 @@ class C04(DiffProperty):
                        + ":symbolize=0:malloc_fill_byte=190:max_malloc_fill_size=1048576")
     quick_n = 3000
     thorough_n = 300000
-    rule = ("a case = a history of 1-25 operations over 4 array handles and 2 slice handles, all starting without a buffer; "
-            "operations: append (data / zero), insert, typed set (offset from start or end), slice (with and without a store), "
-            "reserve (raw / char / 4-byte elements), clone, clear, reduce, the in-place mpt_buffer_insert/cut/set (private "
-            "mutable buffers only), printf(\"%s\"), string, new buffer with flags, flags set in the header, slice creation and "
-            "mpt_slice_write (data / zero / prepare form). quick: a directed sweep {content length 0,1,3,63,64,65,200} x "
-            "{raw, char} x {no flag, immutable, no-copy, both} x {private, shared with a second handle} x every operation with "
-            "offsets and lengths at 0, 1, used-1, used, used+1, size-used, size-used+1, size-1, size, size+1 and the 64-byte printf "
-            "steps, then 3000 random histories whose arguments are drawn around used, size, the free space and the 128-byte "
-            "allocation granule. After EACH operation all six handles are read back (element type, bytes, length), with the sharing "
-            "partition, _used, _size, reference count and flags of every buffer. A case is non-trivial when some handle holds "
-            "data when a mutating operation runs; distinct = distinct case text")
+    rule = ("a case = a history of 1-25 operations over 4 array handles and 2 slice handles, all starting without a buffer. "
+            "C API cases (harness/c04_array.c): append (data / zero), insert, typed set (offset from start or end), slice (with "
+            "and without a store), reserve (raw / char / 4-byte elements), clone, clear, reduce, the in-place "
+            "mpt_buffer_insert/cut/set (private mutable buffers only), printf(\"%s\"), string, new buffer with flags, flags set in "
+            "the header, slice creation and mpt_slice_write (data / zero / prepare form). C++ API cases (harness/c04_cxx.cpp, "
+            "mpt::array / mpt::slice objects): copy assignment, clear, append, set(len,data / zero), array = slice, slice(array), "
+            "slice::shift / trim, printf, string, slice::write, header flags; array::insert and array::set(string value) are "
+            "generated only when the tree under test contains the patches of docs/C04_cxx_patches.diff (they are defective "
+            "on the unpatched tree, replays docs/C04_cxx_replay_*.json). quick: a directed sweep for each API {content length "
+            "0,1,3,63,64,65,200} x {raw, char} x {flags} x {private, shared with an array, shared with a slice} x every operation "
+            "with offsets and lengths at 0, 1, used-1, used, used+1, size-used, size-used+1, size-1, size, size+1 and the 64-byte "
+            "printf steps, then 3000 (C) + 1500 (C++) random histories with arguments drawn around used, size, the free space and "
+            "the 128-byte allocation granule. After EACH operation all six handles are read back (element type, bytes, length), "
+            "with the sharing partition, _used, _size, reference count and flags of every buffer. A case is non-trivial when some "
+            "handle holds data when a mutating operation runs; distinct = distinct case text")
     modelled = ("mptcore/array/{buffer_alloc,array_append,array_insert,array_set,array_slice,array_reserve,array_clone,"
-                "array_reduce,buffer_insert,buffer_cut,buffer_set,slice_write,printf,array_string}.c transcribed in "
+                "array_reduce,buffer_insert,buffer_cut,buffer_set,slice_write,printf,array_string}.c and the C++ entry points of "
+                "mpt++/array.cpp + mptcore/array.h (reference assignment, array::append/set/operator=(slice), slice ctor/shift/trim; "
+                "array::insert and array::set(value) as they are AFTER docs/C04_cxx_patches.diff) transcribed in "
                 "coq/C04/ArrayModel.v for raw buffers and POD element types (no init/fini callbacks; those are C05); "
                 "malloc failure, SIZE_MAX overflow guards, errno kinds and vsnprintf formats other than \"%s\" are not modelled; "
-                "the C++ templates of mpt++/array.cpp are not modelled")
-    trusted = ["harness/c04_array.c reads every handle back from the header fields and the bytes behind the header, "
-               "not through the library; it includes buffer_alloc.c to see struct bufferData",
+                "typed_array / unique_array / pointer_array / map templates are not modelled")
+    trusted = ["harness/c04_array.c and harness/c04_cxx.cpp read every handle back from the header fields and the bytes behind "
+               "the header, not through the library (the C harness includes buffer_alloc.c, the C++ harness mirrors the layouts "
+               "and checks their sizes)",
+               "the C++ harness compiles mpt++/array.cpp into its own translation unit without UBSan's vptr check (C-made "
+               "buffers carry a C function table, not a C++ vtable); all other sanitizer checks stay on",
                "vsnprintf(\"%s\") is modelled as bounded copy + NUL; malloc succeeds; fresh heap memory reads as the ASan fill byte 0xbe"]
     level_text = ("proof: Coq theorems C04_cow_step / C04_others_unchanged / C04_cow_histories / C04_refused_unchanged / "
                   "C04_model_no_fault / C04_ref_inv over the transcribed mechanism (heap of reference-counted buffers + array and "
-                  "slice handles): for EVERY state satisfying the heap invariant and every one of the 16 modelled operations (append, "
-                  "insert, typed set, slice, reserve, clone/clear, reduce, in-place buffer insert/cut/set, printf, string, new buffer, "
-                  "flags, slice creation, slice write), the value read through the target handle is exactly the plain vector "
-                  "operation of coq/C04/ArraySpec.v (gaps zero, lengths exact), every other handle reads what it read before, the "
-                  "reference count of every buffer equals the number of handles on it, no model access leaves the block, refused "
-                  "operations change no value; lifted to all histories by induction (no bound on handles, lengths, history length). "
-                  "The model is tied to the code on every run by differential execution under ASan/UBSan")
-    level_note = ("full strength for the C API on raw and POD-typed buffers; all theorems closed under the global context. Trusted: Coq "
-                  "kernel; hand transcription of mptcore/array/*.c (validated by the correspondence run, not verified); extraction + "
-                  "OCaml driver; harness. The specification is told (hint_of) the NoCopy/shared/immutable flags and capacity of the "
-                  "target's buffer where the interface leaves the verdict to them (NoCopy refusal, capacity precondition of the "
-                  "in-place mpt_buffer_* functions, partial slice writes). Not covered: the C++ templates of mpt++/array.cpp (array, "
-                  "slice, typed_array, unique_array, pointer_array, map) - neither modelled nor driven; buffers with init/fini "
-                  "callbacks (C05); malloc failure paths. See docs/notes_C04.md.")
+                  "slice handles): for EVERY state satisfying the heap invariant and every one of the 24 modelled operations (C API: "
+                  "append, insert, typed set, slice, reserve, clone/clear, reduce, in-place buffer insert/cut/set, printf, string, new "
+                  "buffer, flags, slice creation, slice write; C++ API: array copy/assignment, append, set, set(string value), "
+                  "array = slice, slice(array), slice::shift/trim), the value read through the target handle is exactly the plain "
+                  "vector operation of coq/C04/ArraySpec.v (gaps zero, lengths exact), every other handle reads what it read before, "
+                  "the reference count of every buffer equals the number of handles on it, no model access leaves the block, refused "
+                  "operations change no value; lifted to all mixed C/C++ histories by induction (no bound on handles, lengths, "
+                  "history length). The model is tied to the code on every run by differential execution of two harness binaries "
+                  "(C and C++) under ASan/UBSan")
+    level_note = ("full strength for the modelled C and C++ entry points on raw and POD-typed buffers; all theorems closed under the "
+                  "global context. Trusted: Coq kernel; hand transcription (validated by the correspondence run, not verified); "
+                  "extraction + OCaml driver; harnesses. The specification is told (hint_of) the NoCopy/shared/immutable flags and "
+                  "capacity of the target's buffer where the interface leaves the verdict to them (NoCopy refusal, capacity "
+                  "precondition of the in-place mpt_buffer_* functions, partial slice writes) and whether a slice window lies inside "
+                  "the data (harness guard of slice::shift/trim and array = slice). OPEN: mpt++ array::insert (double offset, "
+                  "new buffer never installed, heap overflow) and array::set(const value&) (always fails) are defective on /repo; "
+                  "they are modelled as patched (docs/C04_cxx_patches.diff, verified on a scratch tree) and driven only once the "
+                  "patch is in the tree. Not covered: typed_array / unique_array / pointer_array / map templates (negative "
+                  "slice::shift/trim, too), buffers with init/fini callbacks (C05), malloc failure paths. See docs/notes_C04.md.")
     technique = "Coq refinement proof (refcounted buffer heap -> value vectors) + differential correspondence check"
     assumptions = ["malloc succeeds", "buffers carry no init/fini callbacks (raw or POD element types)",
+                   "mpt++ array::insert and array::set(const value&) behave as in docs/C04_cxx_patches.diff (not yet in /repo)",
                    "vsnprintf(\"%s\") copies at most cap-1 bytes, stores a NUL and returns the text length"]
 
     # ------------------------------------------------------------ token handling
